@@ -21,9 +21,15 @@ SHARD = 60
 RULE = ('PWMs 4 x w (w 1-7 quick, up to 30 thorough; float64 and float32 log-odds as fimo builds them: '
         'log2(pwm+eps)-log2(0.25)) of kinds dirichlet(0.1-5), with exact zeros, with uniform columns, with '
         'one-hot columns, mixed, plus raw integer-valued log-odds matrices (bin 1 or 0.5) that drive prefix '
-        'minima/maxima away from the totals; bins 0.01-1, eps 1e-6-0.1; compiled _pwm_to_mapping is called; '
+        'minima/maxima away from the totals; bins 0.01-1, eps 1e-6-0.1; PWMs with an all-positive integerised '
+        'column (uniform / near-uniform column, eps up to 0.1, bins down to 0.01) first, in the middle, last and '
+        'everywhere; compiled _pwm_to_mapping is called in a worker process (a dead interpreter = failing input); '
+        'kind fimo: the table fimo() itself passes to _fast_hits in the last of 2-3 calls on the same motif that '
+        'differ in eps / bin_size / reverse_complement; '
         'non-trivial = a table with >= 3 distinct finite probabilities and at least one -inf bin')
-TRUSTED = ['C11: numpy.round(log_pwm/bin).astype(int32) computed by the harness is the integer matrix the '
+TRUSTED = ['C11: kind fimo observes the (smallest, table) arguments of _fast_hits by wrapping the module attribute at '
+           'run time in the worker; nothing in /repo is touched',
+           'C11: numpy.round(log_pwm/bin).astype(int32) computed by the harness is the integer matrix the '
            'compiled code works on (a differing integerisation changes the table and is reported)',
            'C11: 2.0**x (C pow) applied by the harness to each returned log2 value; exact conversion by float.as_integer_ratio']
 ASSUMPTIONS = ['float log-space accumulation (logaddexp2) is compared with the exact counts to 1e-9 relative, not verified',
